@@ -572,8 +572,17 @@ fn drive_connection(
                 return false;
             }
             Ok(_) => continue,
-            Err(ref e) if would_block(e) => return false,
-            Err(ref e) if interrupted(e) => return drive_connection(conn, wbuf, msgs),
+            // Nothing of `buf` was written in these cases, so it has to be kept for the next attempt: it
+            // may be the remainder of a partially written message, and dropping it would leave the client
+            // with a torn stream.
+            Err(ref e) if would_block(e) => {
+                wbuf.replace(buf);
+                return false;
+            }
+            Err(ref e) if interrupted(e) => {
+                wbuf.replace(buf);
+                return drive_connection(conn, wbuf, msgs);
+            }
             Err(e) => {
                 error!(?conn, error = %e, "write failed");
                 return true;
